@@ -41,6 +41,9 @@ func init() {
 		"(*strings.Builder).WriteRune":          extBufWriteRune,
 		"(*strings.Builder).String":             extBufString,
 		"(*strings.Builder).Len":                extBufLen,
+		"(*strings.Builder).Grow":               func(fr *frame, args []value) value { return nil },
+		"(*bytes.Buffer).Grow":                  func(fr *frame, args []value) value { return nil },
+		"strings.Join":                          extStringsJoin,
 		"reflect.ValueOf":                       extReflectValueOf,
 		"(reflect.Value).Kind":                  extReflectKind,
 		"(reflect.Value).Int":                   extReflectInt,
@@ -597,7 +600,7 @@ func extExit(fr *frame, args []value) value {
 func bufCell(args []value) *value {
 	p := args[0].(*value)
 	if p == nil {
-		panic("runtime error: invalid memory address or nil pointer dereference")
+		panic(rtPanic("runtime error: invalid memory address or nil pointer dereference"))
 	}
 	st := (*p).(structure)
 	// bytes.Buffer{buf, off, lastRead}; strings.Builder{addr, buf}
@@ -1090,4 +1093,17 @@ func extCmpExporter(fr *frame, args []value) value {
 		panic(pathAbort{"unsupported", "cmp.Exporter with a selective predicate"})
 	}
 	return iface{t: types.Typ[types.Int], v: cmpOpt{"exporter-all"}}
+}
+
+func extStringsJoin(fr *frame, args []value) value {
+	i := fr.i
+	elems, _ := args[0].([]value)
+	var r value = ""
+	for k, e := range elems {
+		if k > 0 {
+			r = i.strConcat(r, args[1])
+		}
+		r = i.strConcat(r, e)
+	}
+	return r
 }
